@@ -558,8 +558,14 @@ def run_job(job, acct):
   # running body may finish, or the executor may move on, between any two lines of it.  Enumerated around every 8th
   # abort position of the templates whose bodies end by themselves.
   if job['via'] == 'thread' and job['template'] in FOCUS_TEMPLATES:
-    for k in ks[::8]:
-      for k2 in range(k + 1, k + 36):
+    swept = 0
+    for k in ks[::3]:
+      s1, _, _ = run_case(dict(base, plan={str(k): inj1}), trace=True)
+      inner = [kk for kk, tidx, tg in s1.tags if kk > k and tg and tg[0] == 'line' and tg[1] in ('kill', 'async_raise', '_is_thread_proc_running')]
+      if not inner or swept >= 6:
+        continue        # this abort did not have to kill a running phase thread
+      swept += 1
+      for k2 in inner:
         for c in (0, 1, 2):
           case = dict(base, plan={str(k): inj1, str(k2): c})
           r, _ = check(case)
